@@ -210,6 +210,39 @@ def battery15(g, w, ss):
     return o
 
 
+def battery15_load(g, base):
+    """wn.ic.load() on a WordNet::Similarity style file generated for a copy of the
+    graph lexicon whose synset ids follow the <lexicon>-<offset:08>-<pos> scheme"""
+    n = g['n']
+    lid = f"i{g['id']}"
+    lex = lmfgen.mini_lexicon(lid)
+    lex['synsets'] = [{'id': f'{lid}-{x:08}-{g["pos"][x - 1]}', 'ili': '',
+                       'partOfSpeech': g['pos'][x - 1], 'meta': None} for x in range(1, n + 1)]
+    p = base / 'iclex.xml'
+    p.write_text(lmfgen.to_xml({'lmf_version': '1.0', 'lexicons': [lex]}), encoding='utf-8')
+    wn.add(p, progress_handler=None)
+    w = wn.Wordnet(f'{lid}:1')
+    out = []
+    for fi, f in enumerate(g.get('icfiles', [])):
+        path = base / f'ic{fi}.dat'
+        lines = ['wnver::eOS9lXC6GvMWznF1wkZofDdtbBU']
+        for x, weight, root in f['rows']:
+            lines.append(f'{x}{g["pos"][x - 1] if g["pos"][x - 1] != "s" else "a"} {weight}'
+                         + (' ROOT' if root else ''))
+        path.write_text('\n'.join(lines) + '\n')
+        st, res = call(wn.ic.load, path, w)
+        row = {'fi': fi, 'st': st, 'keys': sorted(res) if st == 'ok' else [], 'tot': [], 'w': []}
+        if st == 'ok':
+            for pos in sorted(res):
+                row['tot'].append([pos] + val(('ok', res[pos][None])))
+                for k, v_ in res[pos].items():
+                    if k is not None:
+                        row['w'].append([pos, int(k.split('-')[-2])] + val(('ok', v_)))
+        out.append(row)
+    wn.remove(f'{lid}:1', progress_handler=None)
+    return out
+
+
 def handle(job):
     graphs = job['graphs']
     d = fresh_db('tax')
@@ -231,6 +264,7 @@ def handle(job):
                     o['c14'] = battery14(g, w, ss)
                 if 'c15' in job['want']:
                     o['c15'] = battery15(g, w, ss)
+                    o['c15']['load'] = battery15_load(g, base_dir())
         except JobTimeout:
             o = {'id': g['id'], 'timeout': True}
         out.append(o)
